@@ -1,1 +1,409 @@
 //! Verification hooks: planner (cfg `rten_verif`).
+//!
+//! Re-exposes the crate-private `Graph` machinery (graph construction,
+//! `Graph::execution_plan`, `Graph::run`, `Graph::partial_run`) through a plain-data API so
+//! that the external correspondence harness in `/verif/harness/planner` can drive the real
+//! planner, plan cache and run prologue with arbitrary graphs and requests.
+//!
+//! Graphs are described as a list of [`NodeSpec`]s; the node at position `i` receives node
+//! ID `i` and the name `n<i>`. Operators are instances of a trivial test operator whose
+//! outputs are simple functions of its inputs (sum of all input elements plus the output
+//! index plus one), so that runs are deterministic and cheap.
+use std::sync::{Arc, Mutex};
+
+use rten_base::bit_set::BitSet;
+use rten_tensor::prelude::*;
+use rten_tensor::Tensor;
+use smallvec::SmallVec;
+
+use crate::graph::{CaptureEnv, Dimension, Graph, NodeId, PlanOptions, RunError, RunOptions};
+use crate::infer_shapes::InferShapes;
+use crate::operator::{
+    InPlaceInputs, OpError, OpRunContext, Operator, OutputList, OutputTypeList,
+    OutputTypesContext, SubgraphOperator,
+};
+use crate::threading::ThreadPool;
+use crate::timing::Profiler;
+use crate::value::{DataType, Sequence, Value, ValueOrView, ValueType, ValueView};
+use crate::weight_cache::WeightCache;
+
+/// Element type codes used by the plain-data API: 0 = f32, 1 = i32, 2 = i8, 3 = u8.
+fn dtype_from_code(code: u8) -> DataType {
+    match code {
+        0 => DataType::Float,
+        1 => DataType::Int32,
+        2 => DataType::Int8,
+        _ => DataType::UInt8,
+    }
+}
+
+/// Description of one graph node.
+#[derive(Clone, Debug)]
+pub enum NodeSpec {
+    /// A value node with optional `(is_sequence, dtype code)` and shape metadata. A `None`
+    /// dimension is symbolic.
+    Value {
+        dtype: Option<(bool, u8)>,
+        shape: Option<Vec<Option<usize>>>,
+    },
+    /// A scalar f32 constant.
+    Constant,
+    /// An operator node. `captures` lists the node IDs whose *names* (`n<id>`) are
+    /// captured by the operator's subgraph; IDs need not exist in the graph.
+    Op {
+        inputs: Vec<Option<u32>>,
+        outputs: Vec<Option<u32>>,
+        captures: Vec<u32>,
+        in_place: bool,
+    },
+}
+
+/// Description of one run input.
+#[derive(Clone, Debug)]
+pub struct InputSpec {
+    pub id: u32,
+    /// Element type code (see [`NodeSpec::Value`]).
+    pub dtype: u8,
+    pub shape: Vec<usize>,
+    /// Pass a sequence (of one tensor) instead of a tensor.
+    pub seq: bool,
+    /// Pass an owned value instead of a view.
+    pub owned: bool,
+    /// Value of every element.
+    pub fill: i32,
+}
+
+/// Result of a successful run: per output `(dtype code or 255 for sequences, shape, elements)`.
+pub type OutValue = (u8, Vec<usize>, Vec<i64>);
+
+/// Error from planning or running: `(Debug form of RunErrorKind, message)`.
+pub type ErrInfo = (String, String);
+
+fn err_info(err: RunError) -> ErrInfo {
+    (format!("{:?}", err.kind()), err.to_string())
+}
+
+fn node_name(id: u32) -> String {
+    format!("n{}", id)
+}
+
+struct TestOp {
+    id: u32,
+    in_place: bool,
+    n_outputs: usize,
+    subgraph: Option<Graph>,
+    log: Arc<Mutex<Vec<u32>>>,
+}
+
+impl std::fmt::Debug for TestOp {
+    fn fmt(&self, f: &mut std::fmt::Formatter<'_>) -> std::fmt::Result {
+        write!(f, "TestOp({})", self.id)
+    }
+}
+
+fn sum_view(view: &ValueView) -> i64 {
+    match view {
+        ValueView::FloatTensor(t) => t.iter().map(|x| *x as i64).sum(),
+        ValueView::Int32Tensor(t) => t.iter().map(|x| *x as i64).sum(),
+        ValueView::Int8Tensor(t) => t.iter().map(|x| *x as i64).sum(),
+        ValueView::UInt8Tensor(t) => t.iter().map(|x| *x as i64).sum(),
+        ValueView::Sequence(seq) => (0..seq.len())
+            .filter_map(|i| seq.at(i))
+            .map(|v| sum_view(&v))
+            .sum(),
+    }
+}
+
+impl TestOp {
+    fn outputs_for(&self, total: i64) -> OutputList {
+        self.log.lock().unwrap().push(self.id);
+        std::thread::yield_now();
+        (0..self.n_outputs)
+            .map(|k| Value::from(Tensor::from([(total + k as i64 + 1) as f32])))
+            .collect()
+    }
+}
+
+impl Operator for TestOp {
+    fn name(&self) -> &str {
+        "VerifTestOp"
+    }
+
+    fn max_inputs(&self) -> Option<usize> {
+        None
+    }
+
+    fn max_outputs(&self) -> Option<usize> {
+        None
+    }
+
+    fn output_types(&self, _ctx: &OutputTypesContext) -> Option<OutputTypeList> {
+        None
+    }
+
+    fn in_place_inputs(&self) -> BitSet<u16> {
+        if self.in_place {
+            BitSet::from_indices([0])
+        } else {
+            BitSet::new()
+        }
+    }
+
+    fn run(&self, ctx: &OpRunContext) -> Result<OutputList, OpError> {
+        let total: i64 = ctx.inputs().iter().flatten().map(|v| sum_view(&v)).sum();
+        Ok(self.outputs_for(total))
+    }
+
+    fn run_in_place(
+        &self,
+        in_place: InPlaceInputs,
+        ctx: &OpRunContext,
+    ) -> Result<OutputList, OpError> {
+        let mut total: i64 = ctx.inputs().iter().flatten().map(|v| sum_view(&v)).sum();
+        for (_, value) in in_place {
+            total += sum_view(&value.as_view());
+        }
+        Ok(self.outputs_for(total))
+    }
+
+    fn as_subgraph_op(&self) -> Option<&dyn SubgraphOperator> {
+        self.subgraph.as_ref().map(|_| self as &dyn SubgraphOperator)
+    }
+
+    fn as_infer_shapes(&self) -> Option<&dyn InferShapes> {
+        None
+    }
+}
+
+impl SubgraphOperator for TestOp {
+    fn subgraphs(&self) -> SmallVec<[&Graph; 2]> {
+        self.subgraph.iter().collect()
+    }
+
+    fn run_subgraph<'a>(
+        &'a self,
+        ctx: &OpRunContext,
+        captures: CaptureEnv,
+        _weight_cache: Option<&[WeightCache]>,
+        _profiler: Option<&mut Profiler<'a>>,
+        _run_opts: Option<RunOptions>,
+    ) -> Result<OutputList, RunError> {
+        let mut total: i64 = ctx.inputs().iter().flatten().map(|v| sum_view(&v)).sum();
+        if let Some(subgraph) = &self.subgraph {
+            for cap_id in subgraph.captures() {
+                let name = subgraph.node_name(*cap_id);
+                if let Some(view) = captures.get_input(&name) {
+                    total += sum_view(&view);
+                }
+            }
+        }
+        Ok(self.outputs_for(total))
+    }
+}
+
+/// A [`Graph`] built from a list of [`NodeSpec`]s.
+pub struct TestGraph {
+    graph: Graph,
+    log: Arc<Mutex<Vec<u32>>>,
+}
+
+fn ids(xs: &[u32]) -> Vec<NodeId> {
+    xs.iter().map(|x| NodeId::from_u32(*x)).collect()
+}
+
+fn make_value(spec: &InputSpec) -> Value {
+    fn tensor<T: Clone>(shape: &[usize], x: T) -> Tensor<T> {
+        Tensor::full(shape, x)
+    }
+    let dtype = dtype_from_code(spec.dtype);
+    if spec.seq {
+        let seq: Sequence = match dtype {
+            DataType::Float => vec![tensor(&spec.shape, spec.fill as f32)].into(),
+            DataType::Int32 => vec![tensor(&spec.shape, spec.fill)].into(),
+            DataType::Int8 => vec![tensor(&spec.shape, spec.fill as i8)].into(),
+            DataType::UInt8 => vec![tensor(&spec.shape, spec.fill as u8)].into(),
+        };
+        return Value::from(seq);
+    }
+    match dtype {
+        DataType::Float => tensor(&spec.shape, spec.fill as f32).into(),
+        DataType::Int32 => tensor(&spec.shape, spec.fill).into(),
+        DataType::Int8 => tensor(&spec.shape, spec.fill as i8).into(),
+        DataType::UInt8 => tensor(&spec.shape, spec.fill as u8).into(),
+    }
+}
+
+fn out_value(value: &Value) -> OutValue {
+    let view = value.as_view();
+    fn elems<T: Copy + Into<f64>>(t: &rten_tensor::TensorView<T>) -> Vec<i64> {
+        t.iter().map(|x| (*x).into() as i64).collect()
+    }
+    match &view {
+        ValueView::FloatTensor(t) => (0, t.shape().to_vec(), elems(t)),
+        ValueView::Int32Tensor(t) => (1, t.shape().to_vec(), elems(t)),
+        ValueView::Int8Tensor(t) => (2, t.shape().to_vec(), elems(t)),
+        ValueView::UInt8Tensor(t) => (3, t.shape().to_vec(), elems(t)),
+        ValueView::Sequence(seq) => (255, vec![seq.len()], vec![sum_view(&view)]),
+    }
+}
+
+impl TestGraph {
+    /// Build a graph. Node `i` of `nodes` gets ID `i` and name `n<i>`. `captures` are the
+    /// graph's own captured value IDs (see `Graph::set_captures`).
+    pub fn build(nodes: &[NodeSpec], captures: &[u32]) -> TestGraph {
+        let log = Arc::new(Mutex::new(Vec::new()));
+        let mut graph = Graph::new();
+        for (i, node) in nodes.iter().enumerate() {
+            let name = node_name(i as u32);
+            let id = match node {
+                NodeSpec::Value { dtype, shape } => {
+                    let shape = shape.as_ref().map(|dims| {
+                        dims.iter()
+                            .enumerate()
+                            .map(|(k, d)| match d {
+                                Some(size) => Dimension::Fixed(*size),
+                                None => Dimension::Symbolic(format!("d{}", k)),
+                            })
+                            .collect()
+                    });
+                    let dtype = dtype.map(|(seq, code)| {
+                        if seq {
+                            ValueType::Sequence(dtype_from_code(code))
+                        } else {
+                            ValueType::Tensor(dtype_from_code(code))
+                        }
+                    });
+                    graph.add_value(Some(&name), shape, dtype)
+                }
+                NodeSpec::Constant => {
+                    graph.add_constant(Some(&name), Tensor::from(1.0f32).into_arc())
+                }
+                NodeSpec::Op {
+                    inputs,
+                    outputs,
+                    captures,
+                    in_place,
+                } => {
+                    let subgraph = (!captures.is_empty()).then(|| {
+                        let mut sg = Graph::new();
+                        let cap_ids: Vec<NodeId> = captures
+                            .iter()
+                            .map(|c| sg.add_value(Some(&node_name(*c)), None, None))
+                            .collect();
+                        sg.set_captures(&cap_ids);
+                        sg
+                    });
+                    let op = TestOp {
+                        id: i as u32,
+                        in_place: *in_place,
+                        n_outputs: outputs.len(),
+                        subgraph,
+                        log: log.clone(),
+                    };
+                    let to_ids = |xs: &[Option<u32>]| -> Vec<Option<NodeId>> {
+                        xs.iter().map(|x| x.map(NodeId::from_u32)).collect()
+                    };
+                    graph.add_op(
+                        Some(&name),
+                        Arc::new(op),
+                        &to_ids(inputs),
+                        &to_ids(outputs),
+                    )
+                }
+            };
+            assert_eq!(id.as_u32(), i as u32);
+        }
+        graph.set_captures(&ids(captures));
+        TestGraph { graph, log }
+    }
+
+    /// `Graph::execution_plan` (which is `Planner::create_plan`).
+    pub fn execution_plan(
+        &self,
+        inputs: &[u32],
+        outputs: &[u32],
+        allow_missing_inputs: bool,
+        captures_available: bool,
+    ) -> Result<Vec<u32>, ErrInfo> {
+        self.graph
+            .execution_plan(
+                &ids(inputs),
+                &ids(outputs),
+                PlanOptions {
+                    allow_missing_inputs,
+                    captures_available,
+                },
+            )
+            .map(|plan| plan.into_iter().map(|id| id.as_u32()).collect())
+            .map_err(err_info)
+    }
+
+    fn run_inputs<'a>(inputs: &[InputSpec], values: &'a [Value]) -> Vec<(NodeId, ValueOrView<'a>)> {
+        inputs
+            .iter()
+            .zip(values)
+            .map(|(spec, value)| {
+                let input: ValueOrView = if spec.owned {
+                    value.clone().into()
+                } else {
+                    value.into()
+                };
+                (NodeId::from_u32(spec.id), input)
+            })
+            .collect()
+    }
+
+    fn run_opts(pool_threads: Option<usize>) -> Option<RunOptions> {
+        pool_threads.map(|n| {
+            RunOptions::default().with_thread_pool(Some(Arc::new(ThreadPool::with_num_threads(n))))
+        })
+    }
+
+    /// `Graph::run` (what `Model::run` calls), using the graph's plan cache. Returns the
+    /// outputs and the IDs of the operators that ran since the log was last cleared.
+    /// `pool_threads`: `None` = global thread pool, `Some(n)` = a fresh pool for this call.
+    pub fn run(
+        &self,
+        inputs: &[InputSpec],
+        outputs: &[u32],
+        pool_threads: Option<usize>,
+    ) -> Result<Vec<OutValue>, ErrInfo> {
+        let values: Vec<Value> = inputs.iter().map(make_value).collect();
+        self.graph
+            .run(
+                Self::run_inputs(inputs, &values),
+                &ids(outputs),
+                None,
+                Self::run_opts(pool_threads),
+            )
+            .map(|outs| outs.iter().map(out_value).collect())
+            .map_err(err_info)
+    }
+
+    /// `Graph::partial_run` (what `Model::partial_run` calls).
+    pub fn partial_run(
+        &self,
+        inputs: &[InputSpec],
+        outputs: &[u32],
+    ) -> Result<Vec<(u32, OutValue)>, ErrInfo> {
+        let values: Vec<Value> = inputs.iter().map(make_value).collect();
+        self.graph
+            .partial_run(Self::run_inputs(inputs, &values), &ids(outputs), None)
+            .map(|outs| {
+                outs.iter()
+                    .map(|(id, value)| (id.as_u32(), out_value(value)))
+                    .collect()
+            })
+            .map_err(err_info)
+    }
+
+    /// Return and clear the log of executed operator IDs.
+    pub fn take_log(&self) -> Vec<u32> {
+        std::mem::take(&mut *self.log.lock().unwrap())
+    }
+
+    /// Number of nodes in the graph.
+    pub fn len(&self) -> usize {
+        self.graph.iter().count()
+    }
+}
